@@ -1585,3 +1585,207 @@ Section CsvRoundTrip.
     - destruct (existsb (key_eqb k) (columns rows)); reflexivity.
   Qed.
 End CsvRoundTrip.
+
+(* ======================================================================== *)
+(* Tuner.run: body, delivery filter, finally block                          *)
+(* ======================================================================== *)
+
+Lemma cb_feed_app a : forall s b,
+  cb_feed s (a ++ b) = match cb_feed s a with Some s' => cb_feed s' b | None => None end.
+Proof.
+  induction a as [|e a IH]; intros s b; [reflexivity|].
+  cbn [app cb_feed]. destruct (cb_on_trial_result s e); [apply IH | reflexivity].
+Qed.
+
+Lemma cb_feed_spec0 evs : forall s, cb_started s = true ->
+  exists s', cb_feed s evs = Some s' /\
+             cb_results s' = cb_results s ++ map (make_row (cb_wallclock s)) evs /\
+             cb_started s' = true /\ cb_wallclock s' = cb_wallclock s.
+Proof.
+  induction evs as [|e evs IH]; intros s Hs.
+  - exists s. cbn. rewrite app_nil_r. repeat split; assumption.
+  - cbn [cb_feed]. unfold cb_on_trial_result. rewrite Hs.
+    set (s1 := {| cb_results := cb_results s ++ [make_row (cb_wallclock s) e]; cb_started := true;
+                  cb_wallclock := cb_wallclock s; cb_disk := cb_disk s |}).
+    set (s2 := if ev_fire e then cb_store s1 else s1).
+    assert (H2 : cb_results s2 = cb_results s ++ [make_row (cb_wallclock s) e] /\ cb_started s2 = true /\
+                 cb_wallclock s2 = cb_wallclock s).
+    { unfold s2. destruct (ev_fire e); cbn; repeat split; reflexivity. }
+    destruct H2 as (Hr & Hst & Hw).
+    destruct (IH s2 Hst) as (s' & Hf & Hr' & Hst' & Hw').
+    exists s'. repeat split; try assumption.
+    + rewrite Hr', Hr, Hw. cbn [map]. rewrite <- app_assoc. reflexivity.
+    + rewrite Hw'. exact Hw.
+Qed.
+
+Lemma run_body_spec steps : forall st answers,
+  cb_started (rs_cb st) = true ->
+  exists cb', cb_feed (rs_cb st) (run_delivered answers steps) = Some cb' /\
+    run_body st answers steps =
+      ({| rs_cb := cb'; rs_ts := fold_left ts_update (run_history answers steps) (rs_ts st) |},
+       snd (run_trace answers steps)) /\
+    cb_started cb' = true.
+Proof.
+  unfold run_delivered, run_history.
+  induction steps as [|stp rest IH]; intros st answers Hs.
+  - exists (rs_cb st). destruct st. cbn. repeat split; assumption.
+  - destruct stp as [ids items|t|].
+    + cbn [run_body run_trace].
+      destruct (deliver_batch answers [] items) as [[evs rem] ok] eqn:Edb.
+      destruct (cb_feed_spec0 (map fst evs) (rs_cb st) Hs) as (cb1 & Hf & _ & Hs1 & _).
+      rewrite Hf. destruct ok.
+      * specialize (IH {| rs_cb := cb1; rs_ts := ts_update (rs_ts st) (ids, handed_of items) |} rem Hs1).
+        cbn [rs_cb rs_ts] in IH. destruct (run_trace rem rest) as [[es hs] r].
+        cbn [fst snd] in *. destruct IH as (cb' & Hf' & Hb & Hs').
+        exists cb'. rewrite map_app, cb_feed_app, Hf. repeat split; assumption.
+      * cbn [fst snd]. exists cb1. repeat split; try assumption; reflexivity.
+    + cbn [run_body run_trace].
+      specialize (IH {| rs_cb := rs_cb st; rs_ts := ts_update (rs_ts st) ([t], []) |} answers Hs).
+      cbn [rs_cb rs_ts] in IH. destruct (run_trace answers rest) as [[es hs] r]. cbn [fst snd] in *.
+      destruct IH as (cb' & Hf' & Hb & Hs'). exists cb'. repeat split; assumption.
+    + cbn. exists (rs_cb st). destruct st. cbn. repeat split; assumption.
+Qed.
+
+Lemma run_finally_spec fails st :
+  fails FPrintBest = false -> fails FCallbacksEnd = false ->
+  let '(st', raised, tr) := run_finally fails st finally_block in
+  rs_cb st' = cb_on_tuning_end (rs_cb st) /\ rs_ts st' = rs_ts st /\
+  raised = (fails FSaveTuner || fails FStopAll || fails FMarkStopped) /\
+  (exists tr', tr = FPrintBest :: FCallbacksEnd :: tr') /\
+  (raised = false -> tr = finally_block).
+Proof.
+  intros H1 H2. unfold finally_block. cbn [run_finally]. rewrite H1, H2.
+  destruct (fails FSaveTuner), (fails FStopAll), (fails FMarkStopped); cbn;
+    repeat split; try reflexivity; try (eexists; reflexivity); try discriminate.
+Qed.
+
+Theorem tuner_run_spec w old answers steps fails :
+  fails FPrintBest = false -> fails FCallbacksEnd = false ->
+  let '(st, raised, tr) := tuner_run w old answers steps fails in
+  cb_results (rs_cb st) = map (make_row w) (run_delivered answers steps) /\
+  Forall2 (row_reflects w) (run_delivered answers steps) (cb_results (rs_cb st)) /\
+  cb_disk (rs_cb st) = Some (cb_results (rs_cb st)) /\
+  rs_ts st = ts_run (run_history answers steps) /\
+  raised = (snd (run_trace answers steps) || (fails FSaveTuner || fails FStopAll || fails FMarkStopped)) /\
+  (exists tr', tr = FPrintBest :: FCallbacksEnd :: tr').
+Proof.
+  intros H1 H2. unfold tuner_run.
+  destruct (run_body_spec steps (run_init w old) answers eq_refl) as (cb' & Hf & Hb & _).
+  rewrite Hb.
+  pose proof (run_finally_spec fails
+               {| rs_cb := cb'; rs_ts := fold_left ts_update (run_history answers steps) (rs_ts (run_init w old)) |}
+               H1 H2) as Hfin.
+  destruct (run_finally fails _ finally_block) as [[st' r'] tr]. cbn [rs_cb rs_ts] in Hfin.
+  destruct Hfin as (Hcb & Hts & Hr & Htr & _).
+  destruct (cb_feed_spec0 (run_delivered answers steps) (rs_cb (run_init w old)) eq_refl)
+    as (cb2 & Hf2 & Hres & _ & _).
+  rewrite Hf in Hf2. injection Hf2 as <-. cbn in Hres.
+  rewrite Hcb. cbn [cb_on_tuning_end cb_store cb_results cb_disk].
+  repeat split.
+  - exact Hres.
+  - rewrite Hres. apply Forall2_map_r. intro e. apply make_row_reflects.
+  - rewrite Hts. reflexivity.
+  - rewrite Hr. reflexivity.
+  - exact Htr.
+Qed.
+
+(* ---- which results are delivered ----------------------------------------- *)
+
+Lemma mem_Z_in x l : mem_Z x l = true <-> In x l.
+Proof.
+  induction l as [|y l IH]; cbn; [split; [discriminate | tauto]|].
+  rewrite orb_true_iff, IH, Z.eqb_eq. split; intros [H|H]; auto.
+Qed.
+
+Lemma deliver_batch_spec batch : forall answers done evs rem ok,
+  deliver_batch answers done batch = (evs, rem, ok) ->
+  (* every delivered event is one of the batch, of a trial not stopped before *)
+  (forall e s, In (e, s) evs ->
+     ~ In (ev_trial e) done /\
+     exists h a, In h batch /\ e = event_of h a /\ s = an_stops a) /\
+  (* nothing is lost: an item is delivered, or its trial was stopped / paused before
+     (in [done] or by an earlier delivered result of this batch) *)
+  (ok = true -> forall h, In h batch ->
+     In (hi_trial h) done \/
+     (exists a, In (event_of h a, an_stops a) evs) \/
+     (exists e, In (e, true) evs /\ ev_trial e = hi_trial h)) /\
+  (* the oracle is consulted once per delivery, in order *)
+  (ok = true -> exists used, answers = used ++ rem /\ length used = length evs).
+Proof.
+  induction batch as [|h rest IH]; intros answers done evs rem ok H; cbn [deliver_batch] in H.
+  - injection H as <- <- <-. split; [|split].
+    + intros e s [].
+    + intros _ h [].
+    + intros _. exists []. split; reflexivity.
+  - destruct (mem_Z (hi_trial h) done) eqn:Em.
+    + destruct (IH _ _ _ _ _ H) as (A & B & C). split; [|split].
+      * intros e s Hin. destruct (A e s Hin) as (Hn & h' & a & Hh & He & Hs).
+        split; [exact Hn|]. exists h', a. split; [right; exact Hh | split; [exact He | exact Hs]].
+      * intros Hok h' [<-|Hh]; [left; apply mem_Z_in; exact Em | apply B; assumption].
+      * exact C.
+    + destruct answers as [|a answers'].
+      * injection H as <- <- <-. split; [|split]; [intros e s [] | discriminate | discriminate].
+      * destruct (deliver_batch answers' (if an_stops a then hi_trial h :: done else done) rest)
+          as [[es rem'] ok'] eqn:E.
+        injection H as <- <- <-. destruct (IH _ _ _ _ _ E) as (A & B & C).
+        assert (Hnd : ~ In (hi_trial h) done).
+        { intro Hin. apply mem_Z_in in Hin. congruence. }
+        split; [|split].
+        -- intros e s [Hin|Hin].
+           ++ injection Hin as <- <-. split; [exact Hnd|]. exists h, a.
+              split; [left; reflexivity | split; reflexivity].
+           ++ destruct (A e s Hin) as (Hn & h' & a' & Hh & He & Hs). split.
+              ** intro Hd. apply Hn. destruct (an_stops a); [right|]; exact Hd.
+              ** exists h', a'. split; [right; exact Hh | split; [exact He | exact Hs]].
+        -- intros Hok h' [<-|Hh].
+           ++ right. left. exists a. left. reflexivity.
+           ++ destruct (B Hok h' Hh) as [Hd|[[a' Ha']|[e [He Ht]]]].
+              ** destruct (an_stops a) eqn:Es.
+                 --- destruct Hd as [Heq|Hd]; [|left; exact Hd].
+                     right. right. exists (event_of h a). split; [left; reflexivity | cbn; exact Heq].
+                 --- left. exact Hd.
+              ** right. left. exists a'. right. exact Ha'.
+              ** right. right. exists e. split; [right; exact He | exact Ht].
+        -- intros Hok. destruct (C Hok) as (used & Hu & Hl). exists (a :: used).
+           split; [cbn; rewrite Hu; reflexivity | cbn; rewrite Hl; reflexivity].
+Qed.
+
+(* no STOP / PAUSE answer: every handed result is delivered, in order *)
+Lemma deliver_batch_all batch : forall answers,
+  (length batch <= length answers)%nat ->
+  forallb (fun a => negb (an_stops a)) (firstn (length batch) answers) = true ->
+  deliver_batch answers [] batch =
+    (map (fun ha => (event_of (fst ha) (snd ha), false)) (combine batch answers), skipn (length batch) answers, true).
+Proof.
+  induction batch as [|h rest IH]; intros answers Hl Hf; [reflexivity|].
+  destruct answers as [|a answers']; [cbn in Hl; lia|].
+  cbn [length firstn forallb] in Hf. apply andb_true_iff in Hf. destruct Hf as [Ha Hf].
+  apply negb_true_iff in Ha. cbn [deliver_batch mem_Z]. rewrite Ha.
+  rewrite (IH answers'); [|cbn in Hl; lia|exact Hf]. cbn [combine map fst snd length skipn]. reflexivity.
+Qed.
+
+(* ---- Tuner.best_config, end to end ------------------------------------------ *)
+Theorem best_config_attains names ms metric hist backend t cfg :
+  tuner_best_config names ms metric (ts_run hist) backend = Ok (t, cfg) ->
+  exists i name m v,
+    nth_error names i = Some name /\
+    match metric with
+    | ByIndex j => j = i
+    | ByName n => n = name /\ forall j, (j < i)%nat -> nth_error names j <> Some name
+    end /\
+    match ms with OneMode m' => m' = m | ModeList l => nth_error l i = Some m end /\
+    aget Z.eqb t backend = Some cfg /\
+    In t (map fst (ts_trials (ts_run hist))) /\
+    v = opt_val m (counted name (of_trial t (handed hist))) /\
+    (v = opt_dflt m \/ In v (counted name (of_trial t (handed hist)))) /\
+    (forall t' x, In x (counted name (of_trial t' (handed hist))) -> better m x v = false).
+Proof.
+  intro H. apply tuner_best_config_spec in H. destruct H as (name & m & v & Hm & Hp & Hb).
+  destruct (metric_name_mode_spec _ _ _ _ _ Hm) as (i & Hn & Hmet & Hms).
+  destruct (print_best_spec hist name m) as [Hnone Hsome]. cbn zeta in *.
+  assert (Hne : handed hist <> []).
+  { intro E. rewrite (Hnone E) in Hp. discriminate. }
+  destruct (Hsome Hne) as (t1 & v1 & pre & post & Hp1 & _ & Hin & Hv & _ & Hor & _ & Hall).
+  rewrite Hp in Hp1. injection Hp1 as <- <-.
+  exists i, name, m, v. repeat split; assumption.
+Qed.
